@@ -154,6 +154,11 @@ type Env struct {
 	// InitMem supplies the value of a location that was never stored to (nil: Unknown / token by path).
 	InitMem  func(path string, t types.Type) Val
 	MaxSteps int
+	// CutCycles abandons an abstract execution that comes back, within one activation of a function, to a block with
+	// the abstract store and the registers of that activation unchanged: every continuation from there is also a
+	// continuation of the first visit, which the enumeration of the choice vectors covers. What the handler observed
+	// on the abandoned path has been observed. Needed for loops whose iteration count the environment decides.
+	CutCycles bool
 }
 
 // ErrBound is returned when the interpretation exceeds its step or choice bound.
@@ -166,6 +171,9 @@ type run struct {
 	steps   int
 	allocN  int
 	err     error
+	cut     bool
+	callN   int
+	visited map[string]bool
 }
 
 func (r *run) choose() bool {
@@ -190,7 +198,9 @@ func Explore(env *Env, fn *ssa.Function, args []Val, st *State) ([]Outcome, erro
 		if r.err != nil {
 			return outs, r.err
 		}
-		outs = append(outs, Outcome{State: s, Ret: ret, Panic: panicked, Choices: append([]bool{}, r.choices[:r.used]...)})
+		if !r.cut {
+			outs = append(outs, Outcome{State: s, Ret: ret, Panic: panicked, Choices: append([]bool{}, r.choices[:r.used]...)})
+		}
 		// next choice vector: flip the last false among the consumed choices
 		v := r.choices[:r.used]
 		i := len(v) - 1
@@ -286,6 +296,25 @@ func zeroOf(t types.Type) Val {
 	return Const{nil}
 }
 
+// cycleKey identifies (activation, block, incoming edge, registers, store).
+func cycleKey(activation int, b, prev *ssa.BasicBlock, vals map[ssa.Value]Val, st *State) string {
+	var ks []string
+	for v, a := range vals {
+		ks = append(ks, v.Name()+"="+a.String())
+	}
+	sort.Strings(ks)
+	var ms []string
+	for k, v := range st.Mem {
+		ms = append(ms, k+"="+v.String())
+	}
+	sort.Strings(ms)
+	pi := -1
+	if prev != nil {
+		pi = prev.Index
+	}
+	return fmt.Sprintf("%d/%d<%d|%s|%s", activation, b.Index, pi, strings.Join(ks, ";"), strings.Join(ms, ";"))
+}
+
 func fieldName(t types.Type, i int) string {
 	if p, ok := t.Underlying().(*types.Pointer); ok {
 		t = p.Elem()
@@ -334,7 +363,20 @@ func (r *run) call(fn *ssa.Function, args []Val, st *State, depth int) (ret []Va
 	}
 	b := fn.Blocks[0]
 	var prev *ssa.BasicBlock
+	r.callN++
+	activation := r.callN
 	for {
+		if r.env.CutCycles && len(b.Preds) > 1 {
+			k := cycleKey(activation, b, prev, vals, st)
+			if r.visited == nil {
+				r.visited = map[string]bool{}
+			}
+			if r.visited[k] {
+				r.cut = true
+				return nil, false
+			}
+			r.visited[k] = true
+		}
 		for _, in := range b.Instrs {
 			r.steps++
 			if r.steps > max {
@@ -445,7 +487,7 @@ func (r *run) call(fn *ssa.Function, args []Val, st *State, depth int) (ret []Va
 				}
 			case *ssa.Call:
 				res, p := r.doCall(x, get, st, depth)
-				if r.err != nil {
+				if r.err != nil || r.cut {
 					return nil, false
 				}
 				if p {
@@ -543,7 +585,7 @@ func (r *run) doCall(x *ssa.Call, get func(ssa.Value) Val, st *State, depth int)
 		}
 		if len(fn.Blocks) > 0 && (r.env.Follow == nil || r.env.Follow(fn)) {
 			rs, p := r.call(fn, args, st, depth+1)
-			if p || r.err != nil {
+			if p || r.err != nil || r.cut {
 				return nil, p
 			}
 			switch len(rs) {
